@@ -12,7 +12,12 @@ fn arg<'a>(args: &'a [String], name: &str) -> Option<&'a str> {
 
 fn main() {
     // panics inside the crate under test are caught; keep them quiet
-    std::panic::set_hook(Box::new(|_| {}));
+    let quiet = std::env::args().nth(1).map(|c| c.starts_with("seq")).unwrap_or(false);
+    std::panic::set_hook(Box::new(move |info| {
+        if !quiet {
+            eprintln!("harness panic: {}", info);
+        }
+    }));
     let args: Vec<String> = std::env::args().collect();
     let cmd = args.get(1).map(|s| s.as_str()).unwrap_or("");
     match cmd {
